@@ -27,7 +27,7 @@ func rulesC09(c *Ctx) {
 	R := c.R
 	R.Rule("R1", "keyset derivation reaches no randomness/time/environment leaf", 3)
 	R.Rule("R2", "start-up and rotation wiring of GenerateKeyset arguments, persisted row and ordering", 11)
-	R.Rule("R3", "active pointer assigned only in start-up/rotation; keyset map never deleted from; every keyset is stored whole under its own id", 5)
+	R.Rule("R3", "active pointer assigned only in start-up/rotation; keyset map never deleted from; every keyset is stored whole under its own id; the active pointer receives only an active keyset", 5)
 	R.Rule("R4", "signer per-message guards and key wiring (active keyset only)", 6)
 	R.Rule("R5", "inputs: all-keysets lookup and own-keyset fee", 2)
 	R.Rule("R6", "60 keys, amounts 2^i, hardened index i, id from the complete map", 4)
@@ -116,6 +116,47 @@ func rulesC09(c *Ctx) {
 			}
 		}
 		R.Check("R3", "module", "writers of the active-keyset pointer", "mint/mint.go", okW, "the active keyset pointer is assigned only by start-up and rotation", "writers: "+strings.Join(writers, ", "))
+		// what becomes the signing keyset is an active one: generated with active = true, or taken from the stored
+		// rows only behind a test of its Active flag
+		for _, f := range c.P.Funcs {
+			top := EnclosingTop(f)
+			if top.Pkg == nil || top.Pkg.Pkg != c.V.CoreType.Obj().Pkg() {
+				continue
+			}
+			for _, b := range f.Blocks {
+				for _, in := range b.Instrs {
+					x, ok := in.(*ssa.Store)
+					if !ok {
+						continue
+					}
+					fa, ok := x.Addr.(*ssa.FieldAddr)
+					if !ok || fieldName(fa) != ak {
+						continue
+					}
+					if pt, ok := fa.X.Type().Underlying().(*types.Pointer); !ok || pt.Elem() != types.Type(c.V.CoreType) {
+						continue
+					}
+					for _, o := range c.CtxsOf(x) {
+						v := o.Of(x.Val)
+						okA, why := true, ""
+						for _, a := range v.Alts() {
+							if isCall(a, fnGenKeyset) && len(a.Args) > 0 && isConst(a.Args[len(a.Args)-1], "true") {
+								continue
+							}
+							flag := &Cond{Name: "the keyset's Active flag is set", Match: func(ft *Fact, _ *Origins) bool {
+								return ft.Kind == "bool" && ft.Pos && isField(ft.A, "Active")
+							}}
+							if okF, _ := c.RequireAt(x, flag); okF {
+								continue
+							}
+							okA, why = false, "assigned "+short(a.String(), 120)+" without a test of its Active flag"
+						}
+						R.Check("R3", c.P.FuncKey(top), "the active pointer receives an active keyset", c.P.InstrPos(x), okA,
+							"the signing keyset is generated active or is a stored keyset whose Active flag was tested", why)
+					}
+				}
+			}
+		}
 		R.Check("R3", "module", "keyset map never deleted from", "mint/mint.go", len(deletes) == 0, "no keyset is ever removed from the map of all keysets (old ecash stays valid)", strings.Join(deletes, ", "))
 		// what is put into the map is a whole keyset under its own id: every field of the stored value is the
 		// field of one generated keyset (only the Active flag may be set apart), never a partial copy
